@@ -312,7 +312,7 @@ impl Check for C10 {
     }
     fn runs(&self, tier: Tier) -> u64 {
         match tier {
-            Tier::Quick => 256 + 300_000,
+            Tier::Quick => 256 + 800_000,
             Tier::Thorough => 4 * 256 + 6_000_000,
         }
     }
